@@ -339,7 +339,24 @@ def ok_inline_shared_twice :=
 def ok_inline_and_shared :=
   run (setSlot0 hp "mia" (.ref 2))              -- (true, ok [])
 
--- #eval cx_demo
+/-- all of the above at once -/
+def allRuns : List (String × Bool × String) :=
+  [ ("cx_demo", cx_demo), ("cx_fsarray_null", cx_fsarray_null), ("cx_fsarray_null_shared", cx_fsarray_null_shared),
+    ("cx_inline_elements_none", cx_inline_elements_none), ("cx_inline_elements_none_fs", cx_inline_elements_none_fs),
+    ("cx_inline_elements_none_str", cx_inline_elements_none_str), ("ok_obj_elements_none", ok_obj_elements_none),
+    ("ok_obj_elements_none_fs", ok_obj_elements_none_fs), ("cx_strarray_obj_none", cx_strarray_obj_none),
+    ("cx_inline_strlist_empty", cx_inline_strlist_empty), ("ok_inline_lists_empty", ok_inline_lists_empty),
+    ("cx_float_token_blank", cx_float_token_blank), ("cx_float_token_empty", cx_float_token_empty),
+    ("cx_float_list_token_empty", cx_float_list_token_empty), ("cx_byte_range", cx_byte_range),
+    ("cx_byte_negative", cx_byte_negative), ("cx_fslist_null_head", cx_fslist_null_head),
+    ("cx_intlist_null_head", cx_intlist_null_head), ("cx_cyclic_spine", cx_cyclic_spine),
+    ("ok_inline_shared_twice", ok_inline_shared_twice), ("ok_inline_and_shared", ok_inline_and_shared) ].map
+  (fun (n, r) => (n, r.1, match r.2 with
+    | .ok l => s!"ok {l.map (fun (d : Int × Option String) => (d.1, d.2.getD "?"))}"
+    | .error e => s!"error {e}"))
+
+-- the results quoted in the comments above:
+#eval allRuns
 
 end CollDemo
 
